@@ -38,6 +38,40 @@ theorem filter_keep_none (s : List StepRec) : s.filter (keep false false) = s :=
   intro r _
   simp [keep]
 
+section
+variable {σ : Type}
+
+theorem finish_fault (args : Args) (o : LoopOut σ) (f : SimFault) (h : o.stop = .fault f) :
+    finish args o = ⟨[], o.stream, .fault f, none⟩ := by
+  unfold finish; rw [h]
+
+theorem finish_ok (args : Args) (o : LoopOut σ) (h : ∀ f, o.stop ≠ .fault f) :
+    finish args o = ⟨record args o.stream, o.stream, o.stop, o.final⟩ := by
+  unfold finish
+  cases hs : o.stop with
+  | fault f => exact absurd hs (h f)
+  | queueEmpty | maxTrace | maxIter | noNormal | loopFuel => rfl
+
+theorem finish_stop (args : Args) (o : LoopOut σ) : (finish args o).stop = o.stop := by
+  unfold finish
+  cases hs : o.stop <;> rfl
+
+theorem finish_stream (args : Args) (o : LoopOut σ) : (finish args o).stream = o.stream := by
+  unfold finish
+  cases hs : o.stop <;> rfl
+
+/-- the trace of a finished run whose stream is ordered by time -/
+theorem finish_trace (args : Args) (o : LoopOut σ) (hp : o.stream.Pairwise (fun a b => a.ev.time ≤ b.ev.time)) :
+    (finish args o).trace = if o.stop.isFault then [] else (o.stream.filter args.keep).map (·.ev) := by
+  cases hs : o.stop with
+  | fault f => rw [finish_fault args o f hs]; simp [Stop.isFault]
+  | queueEmpty | maxTrace | maxIter | noNormal | loopFuel =>
+    rw [finish_ok args o (by intro f h; rw [hs] at h; cases h)]
+    simp only [Stop.isFault]
+    exact record_eq_filter args _ hp
+
+end
+
 theorem sameButFilters_unfiltered (a : Args) : sameButFilters a a.unfiltered := by
   simp [sameButFilters, Args.unfiltered]
 
